@@ -30,7 +30,7 @@ LEVEL_NOTE = ('The API server is replaced by an independent RFC 7386 merge that 
 RULE = ("ids: random over the alphabet with lengths biased to 1-3, 40-70 and 250-300, plus families sharing a long prefix, plus 'parent/child' and 'fn/spec.field' forms; "
         "non-trivial = id longer than 1 char or record with a unicode/null field; distinct = hash of (configuration, id, record, body kind)")
 ASSUMPTIONS = ["RFC 7386 merge with null-dropping models the API server", "Kubernetes qualified name grammar: prefix DNS-1123 subdomain <=253, name <=63 [A-Za-z0-9][-A-Za-z0-9_.]*[A-Za-z0-9]"]
-GATES = {'roundtrips': 2000, 'purges': 2000, 'names_checked': 2000, 'long_ids': 300, 'replicaset_cases': 100, 'hashseed_ids': 100, 'diffbase_roundtrips': 300}
+GATES = {'roundtrips': 2000, 'purges': 2000, 'names_checked': 2000, 'long_ids': 300, 'replicaset_cases': 100, 'hashseed_ids': 100, 'diffbase_roundtrips': 300, 'empty_essences': 20}
 
 ALPHA = 'ABCDEFGHIJKLMNOPQRSTUVWXYZabcdefghijklmnopqrstuvwxyz0123456789_./<>-'
 ALNUM = 'ABCDEFGHIJKLMNOPQRSTUVWXYZabcdefghijklmnopqrstuvwxyz0123456789'
@@ -279,7 +279,14 @@ def run_batch(case: dict[str, Any]) -> dict[str, Any]:
         if rng.random() < 0.35:
             dcfg = rng.choice(DIFFBASE_CONFIGS)
             ds = make_diffbase(dcfg)
-            ess = {'spec': {'x': rng.randint(0, 5), 'ключ': ['значение', None, {'a': 1.5}]}, 'metadata': {'labels': {'l': 'v'}}}
+            # "whatever ... last-handled state": incl. the one of an object with nothing essential in it (an empty mapping: falsy), and falsy leaves
+            ess = rng.choice([
+                {'spec': {'x': rng.randint(0, 5), 'ключ': ['значение', None, {'a': 1.5}]}, 'metadata': {'labels': {'l': 'v'}}},
+                {'spec': {'x': rng.randint(0, 5), 'ключ': ['значение', None, {'a': 1.5}]}, 'metadata': {'labels': {'l': 'v'}}},
+                {}, {'spec': {}}, {'metadata': {'labels': {}}}, {'spec': {'x': 0, 'y': False, 'z': '', 'e': [], 'n': None}}, {'data': {'k': ''}},
+            ])
+            if not ess:
+                cov['empty_essences'] = cov.get('empty_essences', 0) + 1
             p = patches.Patch()
             ds.store(body=bodies.Body(raw0), patch=p, essence=ess)
             check_names(dcfg, p, 'last-handled-configuration')
